@@ -279,6 +279,64 @@ def format_sweep_requests() -> list[Request]:
     return out
 
 
+def _expr_trees(leaves):
+    """All binary trees over the ordered leaves with operators + - * (text, fully parenthesised where needed)."""
+    if len(leaves) == 1:
+        return [leaves[0]]
+    out = []
+    for k in range(1, len(leaves)):
+        for left in _expr_trees(leaves[:k]):
+            for right in _expr_trees(leaves[k:]):
+                for op in "+-*":
+                    l = f"({left})" if (" + " in left or " - " in left) and op == "*" else left
+                    r = f"({right})" if (" + " in right or " - " in right) and op in "*-" else right
+                    if op == "+" and (" + " in right or " - " in right):
+                        r = f"({right})"
+                    out.append(f"{l} {op} {r}")
+    return out
+
+
+def expression_sweep_requests() -> list[Request]:
+    """Systematic element-wise expression sweep: every expression tree over <= 3 sparse vector operands
+    (and the 135 trees over 4) with operators + - *, plus variants in which one leaf is the literal 2 or
+    a contraction M(i,j) * x(j); all operands and the output compressed.  One-dimensional kernels are
+    cheap, so the *expression* axis (merge lattice, exhaustion, sums next to contractions) is covered
+    systematically instead of by hand-picked shapes."""
+    names = ["b(i)", "c(i)", "d(i)", "e(i)"]
+    out = []
+    seen = set()
+
+    def add(expr, extra_formats=None):
+        text = f"a(i) = {expr}"
+        fmts = {"a": "s"}
+        for n in "bcde":
+            if f"{n}(i)" in expr:
+                fmts[n] = "s"
+        if extra_formats:
+            fmts.update(extra_formats)
+        r = Request.make(text, fmts)
+        if r.key() not in seen:
+            seen.add(r.key())
+            out.append(r)
+
+    for k in (2, 3):
+        base = names[:k]
+        for e in _expr_trees(base):
+            add(e)
+        for pos in range(k):
+            lv = list(base)
+            lv[pos] = "2"
+            for e in _expr_trees(lv):
+                add(e)
+            lv = list(base)
+            lv[pos] = "M(i,j) * x(j)"
+            for n_e, e in enumerate(_expr_trees(lv)):
+                add(e, {"M": "ss" if n_e % 2 else "ds", "x": "s"})
+    for e in _expr_trees(names):
+        add(e)
+    return out
+
+
 def core_requests() -> list[Request]:
     """The fixed list only (used by the multi-kernel checks, which run 2-4 kernels per path)."""
     return [Request.make(a, f) for a, f in QUICK_FIXED]
@@ -286,13 +344,13 @@ def core_requests() -> list[Request]:
 
 def sweep_keys() -> set:
     core = {r.key() for r in core_requests()}
-    return {r.key() for r in format_sweep_requests()} - core
+    return {r.key() for r in format_sweep_requests() + expression_sweep_requests()} - core
 
 
 def quick_requests() -> list[Request]:
     seen = set()
     out = []
-    for r in [Request.make(a, f) for a, f in QUICK_FIXED] + format_sweep_requests():
+    for r in [Request.make(a, f) for a, f in QUICK_FIXED] + format_sweep_requests() + expression_sweep_requests():
         if r.key() not in seen:
             seen.add(r.key())
             out.append(r)
